@@ -64,7 +64,7 @@ BUDGET_S = {'quick': int(os.environ.get('C10_BUDGET', 100)), 'thorough': int(os.
 CHUNK = 10
 EVERY3D = {'quick': 10, 'thorough': 5}
 KNOWN_FIXED1 = 'C10-refined-trimmed-simplex-boundary'   # fixed in /repo (Updim.swapdown accepts SimplexChild): regression reproducer only
-KNOWN = 'C10-refined-trimmed-childface-boundary'
+KNOWN = 'C10-refined-trimmed-childface-boundary'   # fixed in /repo (63900a9): regression reproducer only, nothing is suppressed under it
 KNOWN2 = 'C10-retrimmed-3d-mosaic-inconsistent'
 KNOWN3 = 'C10-degenerate-mosaic-child-not-closed'
 
@@ -1114,7 +1114,7 @@ def evaluate(history, res):
                     return None, [], None
             if mon.problems:
                 mech, why = None, ''
-                for fid, pred in (KNOWN, known_mechanism), (KNOWN2, known_retrim), (KNOWN3, known_sliver), (KNOWN3, known_ghost_neighbour):
+                for fid, pred in (KNOWN2, known_retrim), (KNOWN3, known_sliver), (KNOWN3, known_ghost_neighbour):
                     try:
                         known, why = pred(mon, history, step, [m for m, _ in mon.problems])
                     except Exception as e:
@@ -1165,6 +1165,8 @@ def execute(case, res, deadline=None):
     res.count(f'dims/{history["ndims"]}')
     res.count('mesh/' + topogen.mesh_label(history['mesh']))
     res.count('geom/' + history['geom']['kind'])
+    if history.get('scenario'):
+        res.count('scenario/' + history['scenario'])
     before = dict(res.counters)
     idx, probs, mech = evaluate(history, res)
     applied = sum(res.counters.get(f'ops/{k}/applied', 0) - before.get(f'ops/{k}/applied', 0) for k in topogen.OP_KINDS)
@@ -1265,7 +1267,7 @@ def repro_refined_trimmed_simplex():
 
 
 def repro_refined_trimmed_childface():
-    """OPEN: one cube, trim(0.5 - z, maxrefine=1) (the cut coincides with the child faces z = 0.5), refined_by([0]): the boundary lacks the four
+    """FIXED finding (regression monitor): one cube, trim(0.5 - z, maxrefine=1) (the cut coincides with the child faces z = 0.5), refined_by([0]): the boundary lacks the four
     exposed child faces (int n dS = (0, 0, -1)); same for one line element cut at its midpoint and a triangle cut along a child edge;
     the x-face of the cube and a 2-D square are fine."""
     def hist(mesh, normal):
@@ -1279,17 +1281,18 @@ def repro_refined_trimmed_childface():
         ok, idx, probs, mech, r = _run_repro(h)
         if not ok:
             return None, f'monitors did not run on the {name} reproducer: {r.notes[:1]}'
-        if probs and mech != KNOWN:
+        closure = [d for m, d in probs if m == 'boundary closure']
+        if probs and not closure:
             return None, f'{name} fails differently: ' + '; '.join(f'{m}: {d}' for m, d in probs)[:300]
         if probs and not expect:
-            return None, f'{name} (expected clean) fails: ' + probs[0][1][:200]
-        (bad if probs else clean).append(name)
-    if 'cube z<.5' in bad:
-        closure = [d for m, d in _run_repro(cases[0][1])[2] if m == 'boundary closure']
-        return True, f'cube.trim(0.5-z, maxrefine=1).refined_by([0]): {closure[0][:260]} (also failing: {bad[1:]}; clean: {clean})'
+            return None, f'{name} (clean before the repair) fails: ' + probs[0][1][:200]
+        if closure:
+            bad.append(f'{name}: {closure[0][:140]}')
+        else:
+            clean.append(name)
     if bad:
-        return True, f'exposed child faces lost for {bad}; clean: {clean}'
-    return False, 'boundaries of hierarchically refined elements cut along child faces are closed'
+        return True, 'exposed child faces of hierarchically refined trimmed elements are missing from the boundary: ' + ' | '.join(bad)
+    return False, f'boundaries of hierarchically refined elements cut along child faces are closed ({clean})'
 
 
 def repro_retrimmed_3d_mosaic():
@@ -1360,6 +1363,7 @@ def finalize(m, tier, seed):
                monitors={k[8:]: v for k, v in c.items() if k.startswith('monitor/')},
                mesh_kinds={k[5:]: v for k, v in c.items() if k.startswith('mesh/')}, dimensions={k[5:]: v for k, v in c.items() if k.startswith('dims/')},
                geometries={k[5:]: v for k, v in c.items() if k.startswith('geom/')}, topology_types=sorted(m.sets.get('topology_types', ())),
+               scenarios={k[9:]: v for k, v in c.items() if k.startswith('scenario/')},
                known_findings={k[14:]: v for k, v in c.items() if k.startswith('known_finding/')},
                negated_trim={k: c.get(k, 0) for k in ('negated_trim_identical_to_complement', 'negated_trim_differs_from_complement', 'negated_trim_skipped_degenerate_levelset')},
                cut_slivers=dict(trims=c.get('trims_with_cut_slivers', 0), pieces=c.get('cut_sliver_pieces', 0)),
@@ -1385,6 +1389,8 @@ def finalize(m, tier, seed):
         inc = f"{cov['monitor_errors']} monitor errors / {cov['harness_exceptions']} harness exceptions: {cov['monitor_error_signatures'][:3]}"
     elif cov['marginal'] > 0.005 * max(1, cov['comparisons']):
         inc = f"{cov['marginal']} of {cov['comparisons']} comparisons fell in the marginal band"
+    elif sum(cov['scenarios'].values()) < (15 if tier == 'quick' else 100):
+        inc = f"periodic-slice scenarios barely sampled: {cov['scenarios']}"
     elif cov['dimensions'].get('3', 0) < 10:
         inc = '3-D histories barely sampled'
     return dict(coverage=cov, inconclusive=inc)
